@@ -64,8 +64,16 @@ def _sink(ctx, repo, enter) -> None:
 
     cres = peval.repo_class_resolver(repo)
     mod = repo.module(ISO)
+    # is the suppression entered while filesystem isolation is active? (order of the with-items in the executor)
+    isolated = False
+    for _m, _qn, fn in repo.all_functions(EXE):
+        for w in own_nodes(fn):
+            if isinstance(w, ast.With):
+                kinds = ["iso" if "FilesystemIsolation" in norm(i.context_expr) else "osc" if "suppression" in norm(i.context_expr) else "" for i in w.items]
+                if "iso" in kinds and "osc" in kinds and kinds.index("iso") < kinds.index("osc"):
+                    isolated = True
     for state in ("usable", "closed", "detached"):
-        label = f"[sink {state}]"
+        label = f"[sink {state}]" + (" under filesystem isolation" if isolated else "")
         shared = _Sink(state)
         opened = []
 
@@ -80,6 +88,26 @@ def _sink(ctx, repo, enter) -> None:
         it.class_store[OSC, "_null_file"] = shared
         obj = it.instantiate(OSC, cres(OSC, mod), [], {}, init=False)
         obj.fields.update({"_saved_fds": {}, "_saved_logging_disable": None, "_restored": False})
+        # class-level aliases are bound when the module is imported, i.e. to the real `open`
+        for st in repo.cls(ISO, OSC).body:
+            if isinstance(st, ast.Assign) and len(st.targets) == 1 and isinstance(st.targets[0], ast.Name) and st.targets[0].id != "_null_file":
+                v = st.value
+                if isinstance(v, ast.Call) and norm(v.func) == "staticmethod" and len(v.args) == 1:
+                    v = v.args[0]
+                if isinstance(v, (ast.Name, ast.Attribute)) and norm(v) in it.externs:
+                    obj.fields[st.targets[0].id] = it.externs[norm(v)]  # e.g. an alias of the real `open`
+                    continue
+                try:
+                    obj.fields[st.targets[0].id] = it.ev(v, {}, mod)
+                except peval.Undecided:
+                    pass
+        if isolated:
+            # while the test case runs, builtins.open / io.open are the isolation's wrappers: /dev/null is not inside the sandbox
+            def refused(*a, **k):
+                raise peval.Raises("PermissionError", "Attempted to modify non-isolated path: /dev/null")
+
+            it.externs["open"] = refused
+            it.externs["io.open"] = refused
         try:
             obj.methods["__enter__"]()
         except peval.Undecided as exc:
